@@ -14,6 +14,11 @@ ValidDur(D) == /\ SignUniform(D)
                /\ Le(Abs(DayTimeNs(D)), MaxTimeNs)
 DurNew(D) == IF ValidDur(D) THEN Ok(D) ELSE ErrRange
 
+\* Duration from a property bag: the fields that are absent count as zero; a bag without any duration field is a TypeError
+DurKeySet == {"y", "mo", "w", "d", "h", "mi", "s", "ms", "us", "ns"}
+FillDur(p) == [k \in DurKeySet |-> IF k \in DOMAIN p THEN p[k] ELSE Zero]
+DurFromPartial(p) == IF DOMAIN p = {} THEN ErrType ELSE DurNew(FillDur(p))
+
 AbsDur(D) == Dur10(Abs(D.y), Abs(D.mo), Abs(D.w), Abs(D.d), Abs(D.h), Abs(D.mi), Abs(D.s), Abs(D.ms), Abs(D.us), Abs(D.ns))
 HasCalendarUnits(D) == ~IsZero(D.y) \/ ~IsZero(D.mo) \/ ~IsZero(D.w)
 \* DefaultTemporalLargestUnit: the largest non-zero field (nanosecond for the zero duration)
